@@ -4,6 +4,7 @@ import (
 	"fmt"
 	"math"
 	"math/big"
+	"strings"
 	"testing"
 
 	"github.com/peterstace/simplefeatures/geom"
@@ -25,6 +26,13 @@ type C01Case struct {
 
 func c01Gen(t *rapid.T, cx *h.Ctx) C01Case {
 	c := C01Case{PairCase: genPair(t, cx, false, &c01Stats)}
+	// further operands for UnionMany (lists of up to 5), drawn on the integer grid near the pair
+	if c.Family != "" && !strings.HasSuffix(c.Family, "+float") && rapid.IntRange(0, 2).Draw(t, "extras") == 0 {
+		cpx := gen.DrawComplex(t, 2, [2]int{2 * rapid.IntRange(-1, 2).Draw(t, "ex"), 2 * rapid.IntRange(-1, 2).Draw(t, "ey")})
+		for i := rapid.IntRange(1, 3).Draw(t, "nextra"); i > 0; i-- {
+			c.Extra = append(c.Extra, cpx.Geom(t, rapid.SampledFrom(gm.Types).Draw(t, "extype"), 0, false, nil))
+		}
+	}
 	return c
 }
 
@@ -314,6 +322,33 @@ func c01Check(c C01Case, cx *h.Ctx) *h.Failure {
 				return f
 			}
 			return fail(f)
+		}
+	}
+	// UnionMany of a longer list = union of everything, against the exact arrangement of all operands
+	if len(c.Extra) > 0 {
+		all := exact.Geom{Parts: append(append([]exact.Part{}, ea.Parts...), eb.Parts...)}
+		lst := []geom.Geometry{A, B}
+		for _, x := range c.Extra {
+			all.Parts = append(all.Parts, exact.MustFromModel(x).Parts...)
+			lst = append(lst, x.ToGeom())
+		}
+		aov := exact.NewOverlay(all, exact.Geom{})
+		if pairStrict(aov.Ar) {
+			res, err := geom.UnionMany(lst)
+			if err != nil {
+				return fail(h.Failf("overlay/error", "UnionMany(%d operands) returned an error: %v", len(lst), err))
+			}
+			amag := aov.Ar.Magnitude()
+			if amag < 1 {
+				amag = 1
+			}
+			if f := c01CheckResult(fmt.Sprintf("UnionMany(%d operands)", len(lst)), aov, aov.Expect(exact.OpUnion), res, 1e-9*amag, cx); f != nil {
+				for i, x := range c.Extra {
+					f.Msg += fmt.Sprintf("\nextra[%d] = %s", i, x)
+				}
+				return fail(f)
+			}
+			cx.Class("unionmany-list")
 		}
 	}
 	// inclusion-exclusion of area through the library's own Area (cheap cross-check)
